@@ -112,3 +112,10 @@ FATAL_VARIANTS = {
 
 def fatal_c(name="fatal.c", variant="directive"):
     return FATAL_VARIANTS[variant](clean_c(name))
+
+
+def deep_c(name="deep.c", depth=95):
+    """an erroneous file (one over-long line) whose expression nests `depth` parentheses: its analysis needs
+    a deep Python recursion, so it shows whether an earlier file left the process recursion limit lowered"""
+    expr = "(" * depth + "a" + ")" * depth
+    return clean_c(name).replace("\tres = a + b;\n", f"\tres = {expr};\n")
